@@ -418,6 +418,8 @@ var c16CodecNames = []string{"none", "snappy", "gzip", "brotli", "zstd", "lz4"}
 type c16FileSpec struct {
 	Typed   bool      `json:"typed"`
 	Dyn     bool      `json:"dyn,omitempty"`
+	Ref     bool      `json:"ref,omitempty"`   // c16RefRec rows: logical-type columns with reference-type Go values (ref.go)
+	Kinds   bool      `json:"kinds,omitempty"` // one sparse optional leaf per physical type and encoding (kinds.go)
 	Salt    int       `json:"salt,omitempty"`
 	Rows    int       `json:"rows,omitempty"`
 	Enc     string    `json:"enc,omitempty"`
@@ -428,6 +430,9 @@ type c16FileSpec struct {
 	DictMax int64     `json:"dictionary_max_bytes,omitempty"` // > 0: dictionary columns fall back to PLAIN pages once their dictionary is larger
 	Gen     *gen.Case `json:"gen,omitempty"`
 }
+
+// known: the content of the file is known as Go values (typed reads can be judged).
+func (s c16FileSpec) known() bool { return s.Typed || s.Dyn || s.Ref || s.Kinds }
 
 func (s c16FileSpec) key() string {
 	b, _ := json.Marshal(s)
@@ -443,9 +448,10 @@ type c16Built struct {
 	rgRows []int64
 	rgOff  []int64
 	ncols  int
-	baCols int // number of byte array leaf columns
-	dict   int // column chunks that have a dictionary page
-	mixed  int // ... of which hold PLAIN data pages too (dictionary -> PLAIN fallback inside the chunk)
+	baCols int    // number of byte array leaf columns
+	dict   int    // column chunks that have a dictionary page
+	mixed  int    // ... of which hold PLAIN data pages too (dictionary -> PLAIN fallback inside the chunk)
+	few    c16Few // kinds files: data pages by the number of non-null values
 	path   string
 	schema *parquet.Schema
 }
@@ -481,7 +487,7 @@ func c16BuildNew(spec c16FileSpec) (b *c16Built, err error) {
 	}()
 	b = &c16Built{spec: spec}
 	var buf bytes.Buffer
-	if spec.Typed || spec.Dyn {
+	if spec.known() {
 		opts := []parquet.WriterOption{parquet.PageBufferSize(spec.PageBuf), parquet.DataPageVersion(spec.Version),
 			parquet.Compression(gen.Codecs[spec.Codec])}
 		if spec.RGRows > 0 {
@@ -501,7 +507,19 @@ func c16BuildNew(spec c16FileSpec) (b *c16Built, err error) {
 			Close() error
 		}
 		var mkRow func(i int) parquet.Row
-		if spec.Dyn {
+		if spec.Kinds {
+			c16KindsInit()
+			w = parquet.NewGenericWriter[any](&buf, append(opts, c16KindsSchema)...)
+			b.schema = c16KindsSchema
+			mkRow = func(i int) parquet.Row { return c16KindsRow(spec.Salt, i) }
+		} else if spec.Ref {
+			w = parquet.NewGenericWriter[c16RefRec](&buf, opts...)
+			b.schema = c16RefSchema
+			mkRow = func(i int) parquet.Row {
+				rec := c16RefMake(spec.Salt, i)
+				return c16RefSchema.Deconstruct(nil, &rec)
+			}
+		} else if spec.Dyn {
 			w = parquet.NewGenericWriter[c16DynS](&buf, append(opts, c16DynSchema)...)
 			b.schema = c16DynSchema
 			mkRow = func(i int) parquet.Row {
@@ -575,6 +593,11 @@ func c16BuildNew(spec c16FileSpec) (b *c16Built, err error) {
 					break
 				}
 			}
+		}
+	}
+	if spec.Kinds {
+		if b.few, err = c16CountFew(f); err != nil {
+			return nil, fmt.Errorf("reading the pages of the file: %w", err)
 		}
 	}
 	for _, l := range f.Schema().Columns() {
@@ -1082,7 +1105,7 @@ func c16NewReader(spec c16ReaderSpec, files map[string]*parquet.File) (*c16Reade
 		r.rows = parquet.NewRowGroupRowReader(f.RowGroups()[spec.RG])
 		r.off, r.total = b.rgOff[spec.RG], b.rgRows[spec.RG]
 	case "reader":
-		if spec.File.Typed || spec.File.Dyn {
+		if spec.File.known() {
 			if r.ta, err = c16NewDst(b, f, spec.Dst); err != nil {
 				return nil, err
 			}
@@ -1691,7 +1714,7 @@ func c16GenHist(rng *rand.Rand, pool []c16FileSpec, maxOps int) *c16HistCase {
 		}
 		rs := c16ReaderSpec{File: spec, Async: rng.Intn(4) == 0}
 		total := b.total
-		if spec.Typed || spec.Dyn {
+		if spec.known() {
 			rs.Kind = []string{"rows", "rowreader", "reader", "generic", "generic", "whole"}[rng.Intn(6)]
 			if dsts := c16DstsOf(spec, rs.Kind); rs.Kind != "rows" && rs.Kind != "rowreader" {
 				rs.Dst = dsts[rng.Intn(len(dsts))]
@@ -1710,7 +1733,7 @@ func c16GenHist(rng *rand.Rand, pool []c16FileSpec, maxOps int) *c16HistCase {
 			rs.Async = false
 		}
 		cs.Readers = append(cs.Readers, rs)
-		infos = append(infos, info{total: total, typed: (spec.Typed || spec.Dyn) && rs.Kind != "rows" && rs.Kind != "rowreader", kind: rs.Kind})
+		infos = append(infos, info{total: total, typed: spec.known() && rs.Kind != "rows" && rs.Kind != "rowreader", kind: rs.Kind})
 	}
 	n := 4 + rng.Intn(maxOps-3)
 	for len(cs.Ops) < n {
@@ -2580,7 +2603,7 @@ func runC16(c *core.Ctx) {
 			os.RemoveAll(c16TmpDir)
 		}
 	}()
-	c.Res.Rule = "Pools poison what is returned to them. FILES of known content: typed files of c16Rec rows (int64, string, dictionary string, []byte, [16]byte, [5]byte, uuid, *string, []string, nested struct with string/*string/[]byte, map[string]string; cell lengths 0..300; written row by row so every value is known) over every byte array encoding (default, plain, delta length, delta byte array, dictionary) x codec (none snappy gzip brotli zstd lz4) x data page v1/v2 x page buffer 64..4096 x 1..n row groups x DictionaryMaxBytes (none, 48..6000: dictionary columns that fall back to PLAIN pages in the middle of a chunk, early or late), files of c16DynS rows written with an EXPLICIT schema of parquet.Group nodes (nested groups, optional group, repeated group, LIST, MAP, repeated leaf, dictionary column; same writer options), and generated generic files (gen.Case, >= 2 byte array leaves, nested/optional/repeated). DESTINATION TYPES of typed reads: c16Rec (SchemaOf); with the explicit schema c16DynS, a struct whose groups are Go maps (map[string]any, map[string]string, []map[string]string, []any, any), a struct of `any` fields, rows of type map[string]any (maps pre-made by the caller, or nil) and rows of type any - through GenericReader[T].Read, Reader.Read(&v), parquet.Read[T]/ReadFile[T]; values of every destination type are compared with the known content through a normal form of names and content, and held as full canonical forms (content, addresses, map identities, spare capacity). WRITER SHAPES x READER KINDS (systematic): 24 (thorough 96) files walking DictionaryMaxBytes {none,48,200,350,700,2000} x default/dictionary encoding of every byte array column x v1/v2 x 6 codecs x page buffer {64,200,512,1500} x 1/3 row groups x both families, each read by RowGroup.Rows, NewRowGroupRowReader, GenericReader (destination types in turn) and Reader / whole-file helper in one history with batches that span many pages, once in ReadModeSync and once in ReadModeAsync; a shape with a limit counts as non-trivial only when the file has a chunk with a dictionary page AND PLAIN data pages. DESTINATION CORPUS: every destination type x {GenericReader, Reader, whole file}, the usual loop passing the same destination to every call while the caller keeps what earlier calls filled, with churn, GC, ReadRows, Clone, seek, Reset, Close in between. HISTORIES of 4..40 operations over 2..4 readers (RowGroup.Rows, NewRowGroupRowReader, parquet.Reader, GenericReader[T], parquet.Read/ReadFile; sync and async) of possibly different files: ReadRows (1..200 rows, sometimes into recycled rows), typed reads into a random destination type (1 in 4 into the previous destination whose shallow copies the caller kept), Row.Clone of the last batch, SeekToRow, Reset of every reader kind (Reader.Reset, GenericReader.Reset, the Reset method of row group row readers; mostly followed at once by a ReadRows of 5..200 rows, the reader is used on after it, also after Close), Close, churn (other files read by rows and by pages, files written with all codecs, buffers filled/sorted/reset, in this and 2..4 other goroutines), GC (+FreeOSMemory). Every batch is compared with the file content at once and with its deep snapshot after every later operation for as long as the caller is entitled to it (rows until the next call on the same reader; Go values and clones for ever, also after Close and a final churn); the entitlement sets are computed in Go and compared with the model. PAGES: values and dictionary values of 1..3 pages held until Release under churn. BUFFERS: Buffer/GenericBuffer written in several batches (Write/WriteRows), read back after every batch, after sort.Sort (4 sort keys incl. ties and empty strings) and Reset; clones and Go values held across later writes, sort, Reset. CALLER SLICES: 13 write entry points x sorting config x repeated rows, inputs unsorted with spare capacity holding sentinels; full canonical form (contents, order, addresses, capacity region) before vs after write, sort, flush, close, churn. A case is non-trivial when at least one non-empty byte array value was held across at least one churn or GC (caller cases: more than one row); distinct by the JSON of the case."
+	c.Res.Rule = "Pools poison what is returned to them. FILES of known content: typed files of c16Rec rows (int64, string, dictionary string, []byte, [16]byte, [5]byte, uuid, *string, []string, nested struct with string/*string/[]byte, map[string]string; cell lengths 0..300; written row by row so every value is known) over every byte array encoding (default, plain, delta length, delta byte array, dictionary) x codec (none snappy gzip brotli zstd lz4) x data page v1/v2 x page buffer 64..4096 x 1..n row groups x DictionaryMaxBytes (none, 48..6000: dictionary columns that fall back to PLAIN pages in the middle of a chunk, early or late), files of c16DynS rows written with an EXPLICIT schema of parquet.Group nodes (nested groups, optional group, repeated group, LIST, MAP, repeated leaf, dictionary column; same writer options), files of c16RefRec rows (REFERENCE-TYPE Go values of logical-type columns: JSON columns read into map, slice, struct, pointer, interface, slice of maps, json.RawMessage, optional map; a VARIANT column read into an interface; lists of byte slices, nested lists, lists of pointers, a repeated byte slice, maps of byte slices / lists / groups, an optional group with slices, a list of groups; element counts go up and down from row to row and map keys overlap between neighbouring rows), KINDS files (one optional leaf per physical type - boolean, int32, int64, int96, float, double, byte array, string, fixed length byte arrays of 1/4/16 bytes, uuid - and per encoding the format allows for the type and the library takes: PLAIN, RLE, PLAIN_DICTIONARY, RLE_DICTIONARY, DELTA_BINARY_PACKED, DELTA_LENGTH_BYTE_ARRAY, DELTA_BYTE_ARRAY, BYTE_STREAM_SPLIT, 55 columns; every column filled every 1st/2nd/3rd/7th/24th/64th row, the density rotating with the salt, so that with small page buffers and row groups of 2 rows pages hold a dozen, a few, two, one or no value; the pages of each file are counted by their number of non-null values) and generated generic files (gen.Case, >= 2 byte array leaves, nested/optional/repeated). DESTINATION TYPES of typed reads: c16Rec (SchemaOf); with the explicit schema c16DynS, a struct whose groups are Go maps (map[string]any, map[string]string, []map[string]string, []any, any), a struct of `any` fields, rows of type map[string]any (maps pre-made by the caller, or nil) and rows of type any - through GenericReader[T].Read, Reader.Read(&v), parquet.Read[T]/ReadFile[T]; values of every destination type are compared with the known content through a normal form of names and content, and held as full canonical forms (content, addresses, map identities, spare capacity). WRITER SHAPES x READER KINDS (systematic): 24 (thorough 96) files walking DictionaryMaxBytes {none,48,200,350,700,2000} x default/dictionary encoding of every byte array column x v1/v2 x 6 codecs x page buffer {64,200,512,1500} x 1/3 row groups x both families, each read by RowGroup.Rows, NewRowGroupRowReader, GenericReader (destination types in turn) and Reader / whole-file helper in one history with batches that span many pages, once in ReadModeSync and once in ReadModeAsync; a shape with a limit counts as non-trivial only when the file has a chunk with a dictionary page AND PLAIN data pages. DESTINATION CORPUS: every destination type x {GenericReader, Reader, whole file}, the usual loop passing the same destination to every call while the caller keeps what earlier calls filled, with churn, GC, ReadRows, Clone, seek, Reset, Close in between. REFERENCE-TYPE DESTINATIONS: c16RefRec x {GenericReader, Reader, whole file}, the same loop with batch sizes 5/3/2/17 so that every destination slot receives rows with more and with fewer elements than it held, next to a row reader of the same file. KINDS CORPUS: 6 (thorough 18) kinds files over codecs x v1/v2 x page buffer 64/200 x {one row group, row groups of 2 rows, 3 row groups} x DictionaryMaxBytes {none,48,700}, each read by RowGroup.Rows, NewRowGroupRowReader, GenericReader and Reader / whole-file helper (into map[string]any pre-made or nil, any) in sync and async mode, and its column chunks page by page (values and dictionary values held until Release under churn; quick tier: every other column per file); a kinds file counts as non-trivial only when it has pages with exactly one and pages with exactly two non-null values. HISTORIES of 4..40 operations over 2..4 readers (RowGroup.Rows, NewRowGroupRowReader, parquet.Reader, GenericReader[T], parquet.Read/ReadFile; sync and async) of possibly different files: ReadRows (1..200 rows, sometimes into recycled rows), typed reads into a random destination type (1 in 4 into the previous destination whose shallow copies the caller kept), Row.Clone of the last batch, SeekToRow, Reset of every reader kind (Reader.Reset, GenericReader.Reset, the Reset method of row group row readers; mostly followed at once by a ReadRows of 5..200 rows, the reader is used on after it, also after Close), Close, churn (other files read by rows and by pages, files written with all codecs, buffers filled/sorted/reset, in this and 2..4 other goroutines), GC (+FreeOSMemory). Every batch is compared with the file content at once and with its deep snapshot after every later operation for as long as the caller is entitled to it (rows until the next call on the same reader; Go values and clones for ever, also after Close and a final churn); the entitlement sets are computed in Go and compared with the model. PAGES: values and dictionary values of 1..3 pages held until Release under churn. BUFFERS: Buffer/GenericBuffer written in several batches (Write/WriteRows), read back after every batch, after sort.Sort (4 sort keys incl. ties and empty strings) and Reset; clones and Go values held across later writes, sort, Reset. CALLER SLICES: 13 write entry points x sorting config x repeated rows, inputs unsorted with spare capacity holding sentinels; full canonical form (contents, order, addresses, capacity region) before vs after write, sort, flush, close, churn. A case is non-trivial when at least one non-empty byte array value was held across at least one churn or GC (caller cases: more than one row); distinct by the JSON of the case."
 	if err := c16ChurnInit(); err != nil {
 		c.Violation("file", "cannot write the churn files: "+err.Error(), nil)
 		return
@@ -2622,6 +2645,27 @@ func runC16(c *core.Ctx) {
 		dyn = append(dyn, spec)
 	}
 	pool = append(pool, dyn...)
+	// reference-type destinations of logical-type columns; encodings x types x values per page
+	var refs []c16FileSpec
+	for k := 0; k < c.N(4, 12); k++ {
+		spec := c16RefSpec(rng, c.N(60, 160))
+		spec.Enc, spec.Codec, spec.Version = encs[(k*3+1)%len(encs)], c16CodecNames[(k+1)%len(c16CodecNames)], 1+k%2
+		if _, err := c16Build(spec); err != nil {
+			c.Violation("file", fmt.Sprintf("cannot write a file of rows with reference-type fields: %v", err), spec)
+			continue
+		}
+		refs = append(refs, spec)
+	}
+	pool = append(pool, refs...)
+	kinds := c16KindsSpecs(c.N(6, 18), c.N(100, 200))
+	for k := 0; k < c.N(2, 6); k++ {
+		spec := c16KindsSpec(rng, c.N(60, 160))
+		if _, err := c16Build(spec); err != nil {
+			c.Violation("file", fmt.Sprintf("cannot write a kinds file: %v", err), spec)
+			continue
+		}
+		pool = append(pool, spec)
+	}
 	skipped := 0
 	for k := 0; k < c.N(6, 20); k++ {
 		spec := c16GenSpec(rng, c.N(70, 160))
@@ -2666,6 +2710,10 @@ func runC16(c *core.Ctx) {
 	lap("writer shapes x reader kinds")
 	c16DstCorpus(c, typed, dyn)
 	lap("destination types")
+	c16RefCorpus(c, refs)
+	lap("reference-type destinations")
+	c16KindsCorpus(c, kinds)
+	lap("encodings x types x values per page")
 	// ---- random histories
 	nh := c.N(330, 2000)
 	for i := 0; i < nh; i++ {
